@@ -736,6 +736,9 @@ func C06(run *report.Run) {
 		nilValues(world.IntCfg(2, []int{1, 2, 3, 4, 8}, []interface{}{nil}, nil, B, "none")),
 		// a comparator that answers -3/0/3
 		world.Wide(world.UintCfg(2, urange(1, 4), 2, M, "none")),
+		// key types that are not comparable with == ([]byte) or are layered through the marshaler (struct)
+		world.BytesCfg(2, []uint8{0, 1, 0, 2}, B, "none"),
+		world.StructCfg(2, []uint8{0, 1, 0, 2}, M, "none"),
 		// values that differ only as nil versus empty (different encodings, distinguishable through Get)
 		world.IntCfg(2, []int{1, 2, 4}, []interface{}{[]byte(nil), []byte{}, []byte{0}}, []byte{}, B, "none"),
 		world.IntCfg(2, []int{1, 2, 4}, []interface{}{[]int(nil), []int{}}, []int{}, M, "none"),
@@ -904,6 +907,8 @@ func versionConfigs(thorough bool) []*world.Config {
 		// height 3 with chains of two stacked pass-through nodes (only layer-0 keys under a layer-3 key)
 		minEntries(world.LKeyCfg(2, []uint8{0, 0, 0, 0, 3, 0, 0, 0, 1, 3}, 1, B, "none"), 7, thorough),
 	}
+	// []byte keys (not comparable with ==)
+	cs = append(cs, world.BytesCfg(2, []uint8{0, 1, 0, 2, 0}, B, "none"))
 	// struct keys: ordered by a comparator of their own, layered through the configured marshaler (which can fail)
 	sc := world.StructCfg(2, []uint8{0, 1, 0, 2, 0}, B, "none")
 	sc.CustomCompare = true
